@@ -147,6 +147,25 @@ def run(p):
         glat = g.lat if isinstance(g.lat, float) and not hasattr(g.lat, 'dec') else g.lat.dec()
         p.check(abs(float(glat) - lat) <= 1e-9 and abs(g.ell_ht - h) <= 1e-4 * max(1.0, abs(h) / 1e6), f'coord-classes-geo:{nname}',
                 'coord_classes', inp, [float(glat), g.ell_ht], [lat, h], call)
+        # a geographic object obtained on one ellipsoid and then converted with NO ellipsoid argument: the default is GRS80
+        # whatever the object's history (observed at CoordGeo.cart())
+        if ell is not K.grs80 and rng.random() < 0.5:
+            def chain_default():
+                cc = CO.CoordCart(x, y, z)
+                g2 = cc.geo(ell) if notation is None else cc.geo(ell, notation)
+                if rng.random() < 0.3:
+                    g2 = round(g2, 11)
+                c3 = g2.cart()
+                return g2, (c3.xaxis, c3.yaxis, c3.zaxis)
+            okc, rc = p.guarded('coord-classes-raise', 'coord_classes_default_ellipsoid', inp, chain_default, call + ' then .cart() without ellipsoid')
+            if okc:
+                g2, got = rc
+                glat2 = g2.lat if isinstance(g2.lat, float) and not hasattr(g2.lat, 'dec') else g2.lat.dec()
+                glon2 = g2.lon if isinstance(g2.lon, float) and not hasattr(g2.lon, 'dec') else g2.lon.dec()
+                exp3 = [float(v) for v in closed_form(glat2, glon2, g2.ell_ht, K.grs80.semimaj, K.grs80.inversef)]
+                p.case('coord_classes_default_ellipsoid', inp)
+                p.check(math.dist(got, exp3) <= 1e-6, 'coord-classes-cart:default-ellipsoid', 'coord_classes_default_ellipsoid', inp,
+                        list(got), exp3, call.replace('.cart(same ellipsoid)', '.cart()') + '  # default ellipsoid = GRS80')
         c1 = CO.CoordGeo(lat, lon, h).cart(ell)
         d1 = math.dist((c1.xaxis, c1.yaxis, c1.zaxis), (x, y, z))
         p.check(d1 <= 1e-6, 'coord-classes-cart', 'coord_classes', inp, d1, '<= 1e-6 m',
